@@ -42,16 +42,46 @@ Lemma internal_codes_allowed :
   /\ close_code_invalid code_normal = false.
 Proof. vm_compute. auto. Qed.
 
+(* an interval of codes that lies inside one accepted interval is accepted *)
+Lemma range_valid : forall a b cd,
+  existsb (fun r => (fst r <=? a) && (b <=? snd r)) close_code_valid_ranges = true ->
+  a <= cd <= b -> close_code_invalid cd = false.
+Proof.
+  intros a b cd H [H1 H2]. unfold close_code_invalid. apply negb_false_iff.
+  apply existsb_exists in H. destruct H as (r & Hin & Hr). apply andb_prop in Hr. destruct Hr as [Ha Hb].
+  apply N.leb_le in Ha, Hb. apply existsb_exists. exists r. split; [exact Hin|].
+  unfold in_range. apply andb_true_intro. split; apply N.leb_le; lia.
+Qed.
+
 Lemma api_code_wire_ok : forall cd, api_code_ok cd = true -> close_code_invalid cd = false.
 Proof.
   intros cd H. unfold api_code_ok in H. apply orb_prop in H. destruct H as [H|H].
   - apply N.eqb_eq in H. subst. vm_compute. reflexivity.
   - apply andb_prop in H. destruct H as [H1 H2]. apply N.leb_le in H1, H2.
-    unfold close_code_invalid.
-    assert (E1 : (cd <? 1000) = false) by (apply N.ltb_ge; lia).
-    assert (E2 : (cd <=? 2999) = false) by (apply N.leb_gt; lia).
-    assert (E3 : (5000 <=? cd) = false) by (apply N.leb_gt; lia).
-    rewrite E1, E2, E3. rewrite andb_false_r. reflexivity.
+    apply (range_valid 3000 4999); [vm_compute; reflexivity | lia].
+Qed.
+
+(* what RFC 6455 (7.4.1, 7.4.2) and the IANA registry allow in a close frame, written down independently of the code:
+   1000-1003, 1007-1014, 3000-4999 (1004 reserved, 1005/1006/1015 must not be sent, 1016-2999 unassigned) *)
+Definition wire_legal (cd : N) : Prop :=
+  (1000 <= cd <= 1003) \/ (1007 <= cd <= 1014) \/ (3000 <= cd <= 4999).
+Definition legal_ranges : list (N * N) := [(1000, 1003); (1007, 1014); (3000, 4999)].
+
+(* every interval the code accepts lies inside a legal one: re-checked against the generated intervals on every run *)
+Lemma accepted_ranges_legal :
+  forallb (fun r => existsb (fun l => (fst l <=? fst r) && (snd r <=? snd l)) legal_ranges) close_code_valid_ranges = true.
+Proof. vm_compute. reflexivity. Qed.
+
+Lemma accepted_code_wire_legal : forall cd, close_code_invalid cd = false -> wire_legal cd.
+Proof.
+  intros cd H. unfold close_code_invalid in H. apply negb_false_iff in H.
+  apply existsb_exists in H. destruct H as (r & Hin & Hr).
+  pose proof accepted_ranges_legal as HA. rewrite forallb_forall in HA. specialize (HA r Hin).
+  apply existsb_exists in HA. destruct HA as (l & Hl & Hc).
+  unfold in_range in Hr. apply andb_prop in Hr. destruct Hr as [R1 R2]. apply andb_prop in Hc. destruct Hc as [C1 C2].
+  apply N.leb_le in R1, R2, C1, C2.
+  unfold legal_ranges in Hl. simpl in Hl. unfold wire_legal.
+  destruct Hl as [Hl|[Hl|[Hl|[]]]]; subst l; simpl in *; lia.
 Qed.
 
 Lemma Forall_snoc : forall {A} (P : A -> Prop) l x, Forall P l -> P x -> Forall P (l ++ [x]).
@@ -350,4 +380,15 @@ Proof.
   intros c evs. cbv zeta. destruct (cf_run c evs) as (H & _ & _). split.
   - eapply wc_count; eauto.
   - intros l1 x l2 E Hx. rewrite E in H. eapply wc_split; eauto.
+Qed.
+
+(* every close frame written carries no code or a code that may legally appear on the wire (RFC list above) *)
+Definition wire_legal_out (o : out) : Prop :=
+  match snd o with WClose _ (Some cd) _ => wire_legal cd | _ => True end.
+Lemma legal_run_wire : forall c evs, Forall ev_wf evs -> Forall wire_legal_out (snd (run c evs)).
+Proof.
+  intros c evs H. pose proof (legal_run c evs H) as HL. eapply Forall_impl; [|exact HL].
+  intros [t o] Ho. unfold close_legal, wire_legal_out in *. simpl in *. destruct o; auto.
+  destruct code as [cd|]; auto. destruct o; destruct Ho as [Hc _]; apply accepted_code_wire_legal; auto.
+  apply api_code_wire_ok. exact Hc.
 Qed.
